@@ -133,17 +133,6 @@ def site_reader():
                 nm = "".join(map(str, a))
                 t += f"// @harness props=C02,C11,C10 tier={tier} bounds=populations={d},samples=3,assignment={nos(a)},called-pattern={pat:03b},target=symbolic-0..2*size,allele-counts=symbolic,dirty-pre-state timeout=900\n"
                 t += f"stubs_h!(read_site_classify_d{d}_a{nm}_p{pat}, stub_npop_{d}, 8, classify_case::<{d}>({lit(a)}, {pat}));\n\n"
-    vals = [([1,1,0],[1],"quick"),([1,1,1],[2],"quick"),([1,1,1],[4],"thorough"),
-            ([1,2,1],[1,2],"quick"),([2,1,1],[2,1],"quick"),([1,2,0],[0,1],"thorough"),([1,2,2],[2,2],"thorough"),([1,2,3],[1,1,1],"thorough")]
-    for a, m, tier in vals:
-        d = len(m); M = math.prod(x + 1 for x in m)
-        nm = "".join(map(str, a)); mm = "".join(map(str, m))
-        for pat in range(8):
-            if any(a[i] == 0 and not (pat >> i) & 1 for i in range(3)): continue
-            if not any(a[i] != 0 and (pat >> i) & 1 for i in range(3)): continue
-            # only patterns with enough called chromosomes produce a value; keep them all (others hit the insufficient arm)
-            t += f"// @harness props=C02,C11 tier={tier} group=f64 bounds=populations={d},samples=3,assignment={nos(a)},target={nos(m)},called-pattern={pat:03b},allele-counts=symbolic,pmf=table-stub timeout=900\n"
-            t += f"stubs_h!(#[kani::stub(crate::utils::hypergeometric_pmf, h_stub)] read_site_projected_values_a{nm}_m{mm}_p{pat}, stub_npop_{d}, {max(M, 4) + 4}, projected_values_case::<{d}, {M}>({lit(a)}, {lit(m)}, {pat}));\n\n"
     fill(p, "SITE_CASES", t)
 
 if __name__ == "__main__":
